@@ -58,10 +58,16 @@ fn cov_q<const V: usize, const N: usize, const VN: usize>(layout: u8, ddof: i64)
     kani::cover!(c[(0, 0)] == Q::int(0) && c[(V - 1, V - 1)] > Q::int(0), "W: one constant variable");
 }
 
-//@ prop=C08,C20:thorough tier=quick mem=14 timeout=3600 uses=Q inst="cov(ddof=1) on ArrayView2<Q> 2 variables x 2 observations, C-order" bounds="payloads 0..=3; unwind 18"
+//@ prop=C08,C20:thorough tier=quick mem=14 timeout=3600 uses=Q inst="cov(ddof=1) on ArrayView2<Q> 2 variables x 2 observations, F-order (contiguous, not standard layout)" bounds="payloads 0..=3; unwind 18"
 #[kani::proof]
 #[kani::unwind(18)]
-fn c08_cov_q_2x2_ddof1() {
+fn c08_cov_q_2x2_ddof1_f() {
+    cov_q::<2, 2, 4>(1, 1);
+}
+//@ prop=C08 tier=thorough mem=14 timeout=7200 uses=Q inst="cov(ddof=1) on ArrayView2<Q> 2 variables x 2 observations, C-order" bounds="payloads 0..=3; unwind 18"
+#[kani::proof]
+#[kani::unwind(18)]
+fn c08_cov_q_2x2_ddof1_c() {
     cov_q::<2, 2, 4>(0, 1);
 }
 //@ prop=C08,C20 tier=thorough mem=16 timeout=7200 uses=Q inst="cov(ddof=0) on ArrayView2<Q> 2 variables x 3 observations, F-order" bounds="payloads 0..=3; unwind 18"
